@@ -105,6 +105,18 @@ DWARF_TYPES = {'Dwarf_uint8': (1, False), 'Dwarf_uint16': (2, False), 'Dwarf_uin
                'Dwarf_int8': (1, True), 'Dwarf_int16': (2, True), 'Dwarf_int32': (4, True), 'Dwarf_int64': (8, True)}
 
 
+def _int_type_names(relpath, prefix):
+    """names of the form <prefix>int<bits> / <prefix>uint<bits> that the struct factory in the current source defines"""
+    import os
+    import re
+    repo = os.environ.get('VERIF_REPO', '/repo')
+    try:
+        src = open(os.path.join(repo, relpath), encoding='utf-8', errors='replace').read()
+    except OSError:
+        return []
+    return sorted(set(re.findall(r'self\.(%su?int\d+)\b' % prefix, src)))
+
+
 def h_struct_types(ctx):
     """the integer types the ELF and DWARF struct factories derive from class / byte order / format / address size"""
     cfg = ctx.cfg
@@ -124,8 +136,13 @@ def h_struct_types(ctx):
             size, signed = cfg['fmt'] // 8, False
         elif cfg['type'] == 'Dwarf_target_addr':
             size, signed = cfg['addr'], False
-        else:
+        elif cfg['type'] in DWARF_TYPES:
             size, signed = DWARF_TYPES[cfg['type']]
+        else:
+            # any further Dwarf_[u]int<bits> the factory defines (e.g. the 24-bit one of the three-byte index forms)
+            import re
+            m = re.match(r'Dwarf_(u?)int(\d+)$', cfg['type'])
+            size, signed = int(m.group(2)) // 8, not m.group(1)
     con = getattr(st, cfg['type'])('x')
     bs = ctx.bytes('b', size + 1)
     stream = ctx.stream(bs)
@@ -323,7 +340,7 @@ HARNESSES = [
     H('h16_3_struct_types', h_struct_types,
       lambda tier: [dict(family='elf', elfclass=c, little=l, type=t) for c in (32, 64) for l in (True, False) for t in sorted(ELF_TYPES)] +
                    [dict(family='dwarf', fmt=f, addr=a, little=l, type=t) for f in (32, 64) for a in (4, 8) for l in (True, False)
-                    for t in sorted(DWARF_TYPES) + ['Dwarf_offset', 'Dwarf_length', 'Dwarf_target_addr'] if (f, a) in ((32, 8), (64, 4)) or t.startswith('Dwarf_t') or t in ('Dwarf_offset', 'Dwarf_length')],
+                    for t in sorted(set(DWARF_TYPES) | set(_int_type_names('elftools/dwarf/structs.py', 'Dwarf_'))) + ['Dwarf_offset', 'Dwarf_length', 'Dwarf_target_addr'] if (f, a) in ((32, 8), (64, 4)) or t.startswith('Dwarf_t') or t in ('Dwarf_offset', 'Dwarf_length')],
       expect=('ok',),
       desc='every integer type of ELFStructs (per class and byte order: Elf_byte .. Elf_sxword, width and signedness per the gABI data representation) and of DWARFStructs '
            '(per format, address size and byte order) on symbolic bytes: value and exact consumption'),
